@@ -4,8 +4,9 @@ From DippyV Require Import Base.Str Base.Sx Base.Tree Model.PyArgs Entry.Common.
 Definition vk_name (k : vk) : str :=
   match k with
   | KImportDangerous => $"import-dangerous" | KImportUnknown => $"import-unknown"
-  | KImportRelative => $"import-relative" | KBuiltin => $"builtin" | KMethod => $"method"
-  | KReflAttr => $"reflection-attr" | KReflName => $"reflection-name"
+  | KImportRelative => $"import-relative" | KImportName => $"import-name" | KShadow => $"import-shadow"
+  | KBuiltin => $"builtin" | KMethod => $"method"
+  | KReflAttr => $"reflection-attr" | KEscapeAttr => $"reflection-escape" | KReflName => $"reflection-name"
   | KAsyncDef => $"async-def" | KAwait => $"await" | KWithOpen => $"io" | KRaise => $"raise"
   end.
 Definition sx_of_viol (v : viol) : sx := L [A (vk_name (fst v)); A (snd v)].
@@ -30,16 +31,20 @@ Section Orc.
   Variable orc : oracle.
   Definition o_resolve (p : str) : option str := opt_of_sx sx_str (orc (q "py_resolve" [A p])).
   Definition o_analyze (p : str) : bool := sx_bool (orc (q "py_analyze" [A p])).
+  Definition o_shadow (cwd : str) : bool := sx_bool (orc (q "py_shadow" [A cwd])).
+  Definition o_sibling (r : str) : bool := sx_bool (orc (q "py_sibling" [A r])).
+  Definition sx_of_scan (r : scanres) : sx :=
+    L [sx_of_strs (sc_seen r); sx_of_nat (sc_idx r); sx_opt (fun c => A [45; c]) (sc_mode r); sx_opt A (sc_arg r)].
 
   Definition entry (cmd : str) (args : list sx) : option sx :=
     let a := arg args in
     if is_cmd cmd "py_visit" then
-      Some (L (map sx_of_viol (visit (sx_bool (a 0%nat)) (tree_of_sx (a 1%nat)))))
+      Some (L (map sx_of_viol (visit (sx_bool (a 0%nat)) false (tree_of_sx (a 1%nat)))))
+    else if is_cmd cmd "py_source" then
+      Some (L (map sx_of_viol (source_viols o_sibling (sx_bool (a 0%nat)) (tree_of_sx (a 1%nat)))))
     else if is_cmd cmd "py_classify" then
-      Some (sx_of_pyres (classify o_resolve o_analyze (opt_of_sx sx_str (a 0%nat)) (sx_str (a 1%nat)) (sx_strs (a 2%nat))))
-    else if is_cmd cmd "py_own" then Some (sx_of_strs (own_tail (sx_strs (a 0%nat))))
-    else if is_cmd cmd "py_find" then
-      Some (sx_opt (fun p => L [sx_of_nat (fst p); A (snd p)]) (find_script_at 1 (sx_strs (a 0%nat))))
+      Some (sx_of_pyres (classify o_resolve o_analyze o_shadow (opt_of_sx sx_str (a 0%nat)) (sx_str (a 1%nat)) (sx_strs (a 2%nat))))
+    else if is_cmd cmd "py_scan" then Some (sx_of_scan (scan 1 (sx_strs (a 0%nat))))
     else if is_cmd cmd "py_cmdline" then Some (sx_of_pyrun (py_cmdline (sx_strs (a 0%nat))))
     else None.
 End Orc.
